@@ -31,7 +31,10 @@ Definition enc (t : tev) : Z :=
 Inductive case12 :=
 | CChain (via : Z) (scrape : bool) (pre post : list hk) (base_interval : Z)
          (o_err : Z) (o_msg : bytes) (o_trace : list Z) (o_interval : Z) (o_filled : bool)
-         (o_applied : Z) (o_disclosed : bool).
+         (o_applied : Z) (o_disclosed : bool)
+  (* n accepted announces of n different peers (no configured pre-hook, one post-hook that blocks until all n have been
+     answered): how many were answered, how many memberships the swarm holds after the release *)
+| CBacklog (via n o_answered o_applied : Z).
 
 Definition is_store_ev (z : Z) : bool := (z =? 900) || (z =? 901).
 Fixpoint zlist_eqb (a b : list Z) : bool :=
@@ -44,8 +47,18 @@ Fixpoint zlist_eqb (a b : list Z) : bool :=
 Definition has_skip_swarm (l : list hk) : bool := existsb (fun k => match k with KSkipSwarm => true | _ => false end) l.
 Definition rejects (k : hk) : bool := match k with KRejC _ | KRejI => true | _ => false end.
 
+(* the model: n requests served one after the other through `serve`, each applied once (s_store counts the updates) *)
+Definition backlog_applied (n : Z) : Z :=
+  let c0 := {| skip_swarm := false; skip_response := false; user := [] |} in
+  Nat.iter (Z.to_nat n)
+    (fun st : Z => s_store (serve (fun (_ : Z) (r : resp) => (fst r, true)) Z.succ [] [sem KAccept] st c0 (1800, false))) 0.
 Definition chk12 (c : case12) : verdict :=
   match c with
+  | CBacklog via n o_answered o_applied =>
+    (200 + via,
+     let m := backlog_applied n in
+     if negb (o_answered =? n) then 5
+     else if o_applied <? m then 8 else if m <? o_applied then 7 else 0)
   | CChain via scrape pre post base o_err o_msg o_trace o_interval o_filled o_applied o_disclosed =>
     let c0 := {| skip_swarm := false; skip_response := false; user := [] |} in
     let s := serve (fun (_ : Z) (r : resp) => (fst r, true)) Z.succ (map sem pre) (map sem post) 0 c0 (base, false) in
@@ -85,4 +98,5 @@ Definition explain12 (c : case12) :=
     let c0 := {| skip_swarm := false; skip_response := false; user := [] |} in
     let s := serve (fun (_ : Z) (r : resp) => (fst r, true)) Z.succ (map sem pre) (map sem post) 0 c0 (base, false) in
     (s_out s, s_store s, map enc (s_trace s))
+  | CBacklog _ n _ _ => (inr (0, false), backlog_applied n, [])
   end.
